@@ -36,6 +36,7 @@ func TestMain(m *testing.M) {
 	// single-threaded: 16 GC workers in each of the 16 shard processes cost 2-3x in lock/futex
 	// and madvise time (measured), one P does not.
 	runtime.GOMAXPROCS(1)
+	runtime.MemProfileRate = 0
 	h.Main(m)
 }
 
@@ -60,7 +61,7 @@ const (
 const evmGasLimit uint64 = 100000000
 
 // gas handed to the top-level frame on both sides ("caller-supplied gas" that never binds)
-const topGas uint64 = 1 << 50
+const topGas uint64 = 1 << 62
 
 // ---------------------------------------------------------------------------------------
 // case
@@ -130,6 +131,7 @@ type tcore struct {
 	cancel   func()
 	aborted  bool
 
+	why        string
 	budget     bool // a frame ran out of the in-tree budget / the reference supply did bind
 	sawGas     bool
 	lowCallGas bool
@@ -137,6 +139,7 @@ type tcore struct {
 
 	staticFrom   int // depth of the frame that executed the outermost STATICCALL, 0 = not static
 	staticWrite  bool
+	writeBlocked bool // a frame was stopped by the STATICCALL write protection
 	createLowGas bool // CREATE/CREATE2 executed in a frame whose contract.Gas is tiny (S15 shape)
 	// a contract created in this transaction created again / an address was created twice: both
 	// depend on the nonce a fresh contract starts with (S16 shape)
@@ -158,10 +161,12 @@ type stepInfo struct {
 	depth   int
 	pc      uint64
 	op      byte
-	gas     uint64 // contract.Gas
+	gas     uint64 // contract.Gas before the instruction
+	cost    uint64
+	floor   uint64
 	back    func(n int) *big.Int
 	mem     func(off, size int64) []byte
-	self    string
+	self    func() string
 	reqGas  func(addr byte, in []byte) uint64 // precompile price
 	gasLeft uint64                            // what a precompile may cost at most on this side
 }
@@ -170,14 +175,28 @@ func isWriteOp(op byte) bool {
 	return op == 0x55 || (op >= 0xa0 && op <= 0xa4) || op == 0xf0 || op == 0xf5 || op == 0xff
 }
 
-func (c *tcore) step(s stepInfo) {
+// interesting tells whether step needs the operands of the instruction (everything else goes
+// through the allocation-free count).
+func interesting(op byte) bool {
+	return op == 0x5a || op == 0x3f || isWriteOp(op) || op == 0xf1 || op == 0xf2 || op == 0xf4 || op == 0xfa
+}
+
+func (c *tcore) count(depth int, pc uint64, op byte, gas, cost, floor uint64) {
+	if floor > 0 && gas-cost < floor {
+		// reference only: a frame is close to running dry (code deposit, the only charge the
+		// tracer does not see, is at most 24576*200 gas)
+		c.budget = true
+		if c.why == "" {
+			c.why = fmt.Sprintf("frame gas %d below the floor at depth %d pc %d", gas-cost, depth, pc)
+		}
+	}
 	c.steps++
-	c.ops[s.op]++
-	if s.depth > c.maxDepth {
-		c.maxDepth = s.depth
+	c.ops[op]++
+	if depth > c.maxDepth {
+		c.maxDepth = depth
 	}
 	if len(c.trace) < maxTrace {
-		c.trace = append(c.trace, uint32(s.depth&0xff)<<24|uint32(s.op)<<16|uint32(s.pc&0xffff))
+		c.trace = append(c.trace, uint32(depth&0xff)<<24|uint32(op)<<16|uint32(pc&0xffff))
 	}
 	if c.limit > 0 && c.steps > c.limit && !c.aborted {
 		c.aborted = true
@@ -185,9 +204,13 @@ func (c *tcore) step(s stepInfo) {
 			c.cancel()
 		}
 	}
-	if c.staticFrom != 0 && s.depth <= c.staticFrom {
+	if c.staticFrom != 0 && depth <= c.staticFrom {
 		c.staticFrom = 0
 	}
+}
+
+func (c *tcore) step(s stepInfo) {
+	c.count(s.depth, s.pc, s.op, s.gas, s.cost, s.floor)
 	inStatic := c.staticFrom != 0
 	switch {
 	case s.op == 0x5a:
@@ -213,11 +236,12 @@ func (c *tcore) step(s stepInfo) {
 			}
 		}
 		if s.op == 0xff {
-			c.sdAddrs[s.self] = true
+			c.sdAddrs[s.self()] = true
 		}
 	case s.op == 0xf1 || s.op == 0xf2 || s.op == 0xf4 || s.op == 0xfa:
 		c.nested = true
-		if s.back(0).BitLen() < 62 {
+		if s.back(0).BitLen() < 29 {
+			// a gas operand that small is the caller-supplied-gas deviation itself
 			c.lowCallGas = true
 		}
 		to := s.back(1)
@@ -239,6 +263,7 @@ func (c *tcore) step(s stepInfo) {
 					in = s.mem(off.Int64(), size.Int64())
 				}
 				if s.reqGas(a, in) > s.gasLeft {
+					c.why = fmt.Sprintf("precompile %d needs %d > %d", a, s.reqGas(a, in), s.gasLeft)
 					c.budget = true
 				}
 			}
@@ -395,7 +420,7 @@ func runCase(leg string) func(c EVMCase, x *h.Ctx) {
 		var it *result
 		t0 := time.Now()
 		defer func() {
-			if d := time.Since(t0); timing && d > 10*time.Millisecond {
+			if d := time.Since(t0); timing && d > 60*time.Millisecond {
 				fmt.Printf("SLOW %v steps=%d depth=%d budget=%v mutated=%v\n", d, it.tr.steps, it.tr.maxDepth, it.tr.budget, c.Mutated)
 			}
 		}()
@@ -432,6 +457,9 @@ func runCase(leg string) func(c EVMCase, x *h.Ctx) {
 			// the reference left the comparable domain although the in-tree run did not: its gas
 			// supply did bind or it read gas. Not comparable; must stay ~0.
 			x.Label("class:reference-gas-bound")
+			if timing {
+				fmt.Printf("REFBOUND budget=%v gas=%v low=%v why=%s in-tree=%s/%s ref=%s/%s\n", rf.tr.budget, rf.tr.sawGas, rf.tr.lowCallGas, rf.tr.why, it.class, it.errText, rf.class, rf.errText)
+			}
 			return
 		}
 		ds := compareResults(it, rf)
@@ -475,12 +503,12 @@ func runCase(leg string) func(c EVMCase, x *h.Ctx) {
 			detail := fmt.Sprintf("%s\nfirst divergence of the executions: %s", strings.Join(all, "\n"), firstTraceDivergence(it.tr, rf.tr))
 			sig := "evm-differs:" + ds[0].kind
 			switch {
-			case it.tr.createLowGas:
-				sig = sigS15
-				detail = "a CREATE/CREATE2 executed in a frame reached by a CALL-family instruction (callee contract.Gas is 0 because baseGas* never set callGasTemp, the code-deposit charge is taken from it): " + detail
 			case leg == "deployed" && (it.tr.createByCreated || it.tr.recreate || it.tr.hashOfCreated):
 				sig = sigS16Nonce
 				detail = fmt.Sprintf("as deployed (MainnetChainConfig, block %d: pre-EIP-158 rules) a contract created in this transaction starts with nonce 0 and then created again / its address was created a second time / its EXTCODEHASH was taken: ", c.Number) + detail
+			case it.tr.createLowGas:
+				sig = sigS15
+				detail = "a CREATE/CREATE2 executed in a frame reached by a CALL-family instruction (callee contract.Gas is 0 because baseGas* never set callGasTemp, the code-deposit charge is taken from it): " + detail
 			case leg == "deployed" && it.tr.staticWrite:
 				sig = sigS16Static
 				detail = fmt.Sprintf("as deployed (MainnetChainConfig, block %d: pre-Byzantium rules) a state-modifying instruction executed inside a STATICCALL: ", c.Number) + detail
@@ -574,7 +602,10 @@ func labelOps(x *h.Ctx, tr *tcore) {
 		}
 	}
 	if tr.staticWrite {
-		x.Label("shape:write-attempt-inside-STATICCALL")
+		x.Label("shape:write-executed-inside-STATICCALL")
+	}
+	if tr.writeBlocked {
+		x.Label("shape:write-blocked-inside-STATICCALL")
 	}
 	if tr.createLowGas {
 		x.Label("shape:create-in-called-frame")
